@@ -300,6 +300,9 @@ func (c *Ctx) Par(n int, f func(i int)) {
 // into the library with Guard: a panic is a verdict about the code under test,
 // never a crash of the checker. The signature names the panic value and the
 // innermost frame inside /repo so that it is stable across runs.
+// Safely is safely for callers outside the package.
+func (c *Ctx) Safely(f func()) { c.safely(f) }
+
 func (c *Ctx) safely(f func()) {
 	defer func() {
 		if r := recover(); r != nil {
